@@ -7,7 +7,11 @@ A *sub-check* describes one persisted encoding:
     menus(tier)     the menus the domain is the product of (for the evidence)
     evaluate(case)  runs the REAL encoder / decoder on one case and returns
                       {'enc':   the encoding (str/bytes) or None,
-                       'val':   canonical key of the encoded VALUE (str),
+                       'val':   canonical key of the encoded VALUE (str), with
+                                the accepted normalisations applied (two
+                                values the decoder may identify get one key),
+                       'val_exact': optional: key without normalisations
+                                (used for the "split" check; default = val),
                        'evals': number of encode/decode calls made,
                        'nontrivial': bool,
                        'viol':  [(clause, site, detail), ...]}
@@ -20,7 +24,7 @@ sorts all records of a sub-check and finds
 
   * collision: two cases with the same encoding but different values
                (the encoding is not injective), and
-  * split:     two cases with equal values but different encodings
+  * split:     two cases with equal (exact) values but different encodings
                (the encoding is not a function of the value),
 
 over the WHOLE swept domain, then re-confirms every candidate against the real
@@ -32,7 +36,7 @@ import struct
 
 import numpy as np
 
-REC = np.dtype([('e', '<u8'), ('v', '<u8'), ('i', '<u4')])
+REC = np.dtype([('e', '<u8'), ('v', '<u8'), ('x', '<u8'), ('i', '<u4')])
 _NOENC = 0
 
 
@@ -182,7 +186,7 @@ def run_chunk(sub, dom, chunk):
             counters[t] = counters.get(t, 0) + 1
         enc = res['enc']
         rec[k] = (h64(enc) if enc is not None else _NOENC,
-                  h64(res['val']), i)
+                  h64(res['val']), h64(res.get('val_exact', res['val'])), i)
         for clause, site, detail in res['viol']:
             key = (clause, site)
             cur = viol.get(key)
@@ -255,7 +259,7 @@ def find_pairs(rec, max_pairs=2000):
         return pairs, len(seen)
 
     coll, ncoll = groups('e', 'v')
-    split, nsplit = groups('v', 'e')
+    split, nsplit = groups('x', 'e')
     stats['collision_groups'] = ncoll
     stats['split_groups'] = nsplit
     return coll, split, stats
@@ -268,7 +272,8 @@ class HarnessError(Exception):
 def observe(sub, case):
     res = safe_evaluate(sub, case)
     return (res['enc'], res['val'],
-            sorted((c, s) for c, s, _d in res['viol']))
+            sorted((c, s) for c, s, _d in res['viol']),
+            res.get('val_exact', res['val']))
 
 
 def confirm_case(sub, case, clause, site):
@@ -295,13 +300,13 @@ def confirm_pair(sub, kind, case_a, case_b):
     if obs[0] != obs[1]:
         raise HarnessError('non-deterministic evaluation of pair %r / %r'
                            % (case_a, case_b))
-    (ea, va, _x), (eb, vb, _y) = obs[0]
+    (ea, va, _x, xa), (eb, vb, _y, xb) = obs[0]
     if kind == 'collision':
         if not (ea == eb and ea is not None and va != vb):
             return None
         clause = 'distinct-values-share-encoding'
     else:
-        if not (va == vb and ea != eb and ea is not None and eb is not None):
+        if not (xa == xb and ea != eb and ea is not None and eb is not None):
             return None
         clause = 'equal-values-different-encodings'
     return {'clause': clause, 'site': sub.pair_site(kind, case_a, case_b),
